@@ -5,6 +5,7 @@ import (
 	"encoding/json"
 	"errors"
 	"fmt"
+	"reflect"
 	"strings"
 	"time"
 	"unsafe"
@@ -285,8 +286,27 @@ func c17Seq(cc c17Cell, env *Env) CellResult {
 		Apply: func(s interface{}, op int) (string, bool) { return apply(s.(*st), op) },
 		Canon: func(s interface{}) string {
 			x := s.(*st)
+
+			// the implementation's own notion of "last run" is part of the key: two histories are merged only if the
+			// model AND the Invalidator's private timestamp agree (a timestamp moved by a rejected call is hidden state
+			// the model does not have)
+			impl := "?"
+
+			if f := reflect.ValueOf(x.h.inv).Elem().FieldByName("lastRun"); f.IsValid() && f.CanAddr() {
+				if t, ok := reflect.NewAt(f.Type(), unsafe.Pointer(f.UnsafeAddr())).Elem().Interface().(time.Time); ok {
+					switch d := vclock.NowQuiet().Sub(t); {
+					case t.IsZero():
+						impl = "zero"
+					case d > 2*iv+2:
+						impl = "long ago"
+					default:
+						impl = d.String()
+					}
+				}
+			}
+
 			if !x.accepted {
-				return fmt.Sprint("never", x.cleared)
+				return fmt.Sprint("never", x.cleared, impl)
 			}
 
 			d := vclock.NowQuiet().Sub(x.last)
@@ -294,7 +314,7 @@ func c17Seq(cc c17Cell, env *Env) CellResult {
 				d = 2*iv + 2 // beyond the interval all futures coincide
 			}
 
-			return fmt.Sprint(d, x.cleared)
+			return fmt.Sprint(d, x.cleared, impl)
 		},
 	}
 
